@@ -19,12 +19,12 @@ import (
 const c08Rule = "rapid-generated SSO requests: valid, carrying one defect of the validity catalogue (decode / issuer / id / version / destination / conditions / encoding / signature steps), or valid but unanswerable, from SPs whose 0..4 ACS entries use bindings {POST, Redirect, Artifact, PAOS, other} with any index/isDefault mix, with the storage persist step succeeding or failing. Oracle: exactly one successful CreateAuthRequest + 303 to the login URL of the returned id + a body that is only the redirect stub, or no successful persist and a plain HTTP error or exactly one non-Success SAML Response (one well-formed document / one form / one 302). Non-trivial: the entry selected by the reference selection function is not POST/Redirect, or the persist step fails, or the request fails a check placed after endpoint selection. Distinct by (defect set, selected binding, persist fault, reply kind)."
 
 type ssoRun struct {
-	W    *world.World
-	HR   obs.HTTPReq
-	Rep  obs.Reply
-	Dec  *obs.Decoded
-	Sent *Sent
-	Now  time.Time
+	W      *world.World
+	HR     obs.HTTPReq
+	Rep    obs.Reply
+	Dec    *obs.Decoded
+	Sent   *Sent
+	Now    time.Time
 	Signed *spsim.Signed
 }
 
